@@ -179,8 +179,9 @@ class C16(Prop):
             "before/after; non-trivial = case with >= 2 traces of >= 2 accepted steps; distinct by trace contents")
     batch = 8
     trusted_base = ["a freshly forked child of a process that imported card_utils but never played stands for a fresh interpreter"]
-    assumptions = ["inputs are passed by value (fresh lists per game object), except the blinds: in the sequential pass all tables of a "
-                   "case with equal blinds are seated from one list object (a constructor must not write to its arguments)"]
+    assumptions = ["inputs are passed by value (fresh lists per game object), except blinds, deck and starting stacks: in the sequential "
+                   "pass all tables of a case with equal blinds / the same deal / the same line-up are built from one list object each "
+                   "(a game must not write to the lists it is given; the unchanged engine only ever rebinds its deck)"]
 
     def setup(self):
         super().setup()
